@@ -227,7 +227,7 @@ structure QInv (s : QS) : Prop where
   no_done_live : s.stopped = false → s.out.all (!·.isDone) = true
   done_last : s.stopped = true → s.failed = true ∨ ∃ pre, s.out = pre ++ [.done] ∧ pre.all (!·.isDone) = true
 
-theorem qinv_fresh (ackNil : Bool) : QInv { ackNil := ackNil } := by
+theorem qinv_fresh (ackNil fired : Bool) : QInv { ackNil := ackNil, fired := fired } := by
   constructor <;> simp [acksOf, respsOf]
 
 theorem prefix_append_right {α} {a b : List α} (c : List α) (h : a <+: b) : a <+: b ++ c := by
